@@ -24,7 +24,7 @@ For each change deliver, under {out}/ (create it):
   - demo1_test.go / demo2_test.go : a demonstration, preferably a Go test file placed in an existing package directory of the repository (state the directory in notes.md) that FAILS with the change and PASSES without it (it may be probabilistic if the bug is a race - then loop enough to be reliable and say so); a small program is fine if a test is impractical;
   - notes.md : per change: what it breaks, why existing tests do not notice, exactly what is needed for it to manifest, the target directory of the demo file and the exact command you ran.
 
-Verify everything yourself: (1) with the change applied `go build ./...` succeeds and the package tests of every package you touched plus `./internal/storage/... ./internal/http/...` still pass; (2) the demo fails with the change and passes on the pristine worktree (`git stash` / `git checkout -- .` to switch). Leave the worktree clean (pristine HEAD, no untracked files) when you are done - the deliverables live only in {out}/.
+Verify everything yourself: (1) with the change applied `go build ./...` succeeds and the package tests of every package you touched plus `./internal/storage/... ./internal/http/...` still pass; (2) the demo fails with the change and passes on the pristine worktree (save your change with `git diff > /tmp/seedout/<ID>/wip.diff` then `git checkout -- .`, and `git apply` it back; NEVER use `git stash`: the stash is shared by all worktrees of the repository and other agents use it concurrently). Leave the worktree clean (pristine HEAD, no untracked files) when you are done - the deliverables live only in {out}/.
 
 Toolchain (no network in this sandbox): use `go1.27.0` (not plain `go`) and run every command with
   export GOFLAGS=-mod=mod GOPROXY=off GOSUMDB=off GOTOOLCHAIN=local
